@@ -2,6 +2,8 @@
 # usage: tools/seedtest.sh <patch.diff> <Cxx> [more Cyy ...] -- applies a seeded change to /repo, runs the checks, undoes it
 P=$1; shift
 cd /verif
+# evidence of a trial with a seeded change must not replace the evidence of the real tree
+export VERIF_EVIDENCE_DIR=/verif/.build/seed-evidence
 git -C /repo apply "$P" || { echo "PATCH DOES NOT APPLY"; exit 2; }
 for c in "$@"; do ./check $c 2>&1 | grep -E "VIOLATION|KNOWN|\[$c\]" | cut -c1-200 | head -6; done
 git -C /repo checkout -- .
